@@ -33,7 +33,7 @@ func runOwnPair(p *core.Program, r *core.Report, rule string) {
 	if !r.Anchor(rule, "(*eval.redirOp).exec", exec != nil) {
 		return
 	}
-	fns := append([]*ssa.Function{exec}, exec.AnonFuncs...)
+	fns := redirFamily(p)
 	slotOf := func(addr ssa.Value) ssa.Value {
 		// whole slot address, or the slot behind a field address
 		if fa, ok := addr.(*ssa.FieldAddr); ok {
